@@ -126,7 +126,7 @@ OPTIONS = {
     'shutdown': 'workflowAttributes.shutdownOn',
     'walltime': 'resourceManager.config.walltime',
 }
-OPT_SHAPES = ('lit', 'ref', 'ref-comp-only', 'ref-bp-only')
+OPT_SHAPES = ('lit', 'ref', 'ref-comp-only', 'ref-bp-only', 'ref-rebound')
 
 
 def opt_literal(opt, idx, tag):
@@ -156,6 +156,8 @@ def specs_opt_subsets(thorough):
         for shape in OPT_SHAPES:
             if not thorough and shape in ('ref-comp-only', 'ref-bp-only') and opt not in ('args', 'threads'):
                 continue
+            if shape == 'ref-rebound' and opt not in (('args', 'queue', 'shutdown') if thorough else ('args',)):
+                continue
             for mask in range(1 << len(OPT_LAYERS)):
                 yield ('opt-subsets', opt, shape, mask)
 
@@ -178,8 +180,12 @@ def build_opt_subsets(spec):
         value, name, vval = opt_ref_value(opt, idx, tag)
         b.opt(layer, path, value, stage=stage)
         is_comp_layer = layer in ('c', 'ovP', 'ovQ')
-        if shape == 'ref' or (shape == 'ref-comp-only' and is_comp_layer) or (shape == 'ref-bp-only' and not is_comp_layer):
+        if shape in ('ref', 'ref-rebound') or (shape == 'ref-comp-only' and is_comp_layer) or \
+                (shape == 'ref-bp-only' and not is_comp_layer):
             b.var('dg', name, vval)
+        if shape == 'ref-rebound':
+            # the referenced variable is given again by a higher layer (component A's own variables)
+            b.var('c', name, 'hi-' + tag)
     return b.done()
 
 
